@@ -279,4 +279,21 @@ inline std::vector<uint8_t> gen_records_and_noise(vf::Tape& t, size_t total) {
     return b;
 }
 
+// Whole-input shape for the streaming decoder's ring buffer (window >= 128 KiB): units made of a copy of 8-16 KiB taken
+// from almost a full window back, followed by 66-128 KiB of match-free, entropy-compressible literals (staged inside the
+// output buffer by the decoder). With flushes cutting blocks at arbitrary places the ring wraps at every possible offset.
+inline std::vector<uint8_t> gen_ring_stress(vf::Tape& t, size_t total, size_t window) {
+    std::vector<uint8_t> b; b.reserve(total);
+    Xs x(t.raw() + 91);
+    auto lits = [&](size_t n, unsigned alpha) { for (size_t i = 0; i < n && b.size() < total; i++) { uint32_t r = x.next(); b.push_back((uint8_t)(32 + (((r & 0xff) * ((r >> 8) & 0xff)) >> 8) % alpha)); } };
+    lits((size_t)t.range(window / 2, window + 131072), 64);
+    while (b.size() < total) {
+        size_t back = (size_t)t.range(window > 65536 ? window - 65536 : 1, window - 1);
+        size_t len = (size_t)t.range(4096, 16384);
+        if (back <= b.size()) { size_t from = b.size() - back; for (size_t i = 0; i < len && b.size() < total; i++) b.push_back(b[from + i]); }
+        lits((size_t)t.range(66000, 131072), (unsigned)t.pick<unsigned>({64, 96, 200}));
+    }
+    return b;
+}
+
 }  // namespace gen
